@@ -1139,3 +1139,97 @@ func c20FlagAfterPublish(c *Ctx, g *FieldGuard) {
 		c.R.Hold("R-flag-after-publish", "no flag is set in a function that waits for the publication of "+g.Field, "", "")
 	}
 }
+
+// ---------------------------------------------------------------- R-count-paired (C12)
+// A counter kept next to a registry map ("number of handlers", a lock-free fast path reads it) is a derived value:
+// it counts the map's keys. Where its increment is conditional on the key being NEW (the found-flag of a lookup in the
+// map), every decrement must be conditional on the key being PRESENT — otherwise removing a key that was never there
+// drives the counter below the number of entries, and whoever trusts it (the fast path that skips the lookup when it
+// reads zero) stops seeing entries that are still registered.
+func c12CountPaired(c *Ctx) {
+	type upd struct {
+		fn      *ssa.Function
+		call    *ssa.Call
+		counter string
+		delta   int64
+		guardOf string // map member whose found-flag guards the update ("" if none)
+	}
+	var ups []upd
+	foundFlagOf := func(fn *ssa.Function, b *ssa.BasicBlock) string {
+		for _, g := range flow.Guards(fn, b) {
+			cond := g.If.Cond
+			for {
+				if u, ok := cond.(*ssa.UnOp); ok && u.Op == token.NOT {
+					cond = u.X
+					continue
+				}
+				break
+			}
+			if ex, ok := cond.(*ssa.Extract); ok && ex.Index == 1 {
+				if lk, ok := ex.Tuple.(*ssa.Lookup); ok {
+					if f, _, ok := ir.LoadedField(lk.X); ok {
+						return f.Key()
+					}
+				}
+			}
+			if v, _, ok := nilCompare(cond); ok {
+				if lk, ok := ir.Unwrap(v).(*ssa.Lookup); ok {
+					if f, _, ok := ir.LoadedField(lk.X); ok {
+						return f.Key()
+					}
+				}
+			}
+			if pc, ok := cond.(*ssa.Call); ok {
+				if ml, ok := mapLookupOf(c, pc); ok {
+					return ml.field
+				}
+			}
+		}
+		return ""
+	}
+	for _, fn := range c.P.LibFns {
+		ir.EachInstr(fn, func(b *ssa.BasicBlock, _ int, in ssa.Instruction) {
+			call, ok := in.(*ssa.Call)
+			if !ok {
+				return
+			}
+			n := ir.CallName(call)
+			if !strings.HasPrefix(n, "(*sync/atomic.Int") || !strings.HasSuffix(n, ").Add") || len(call.Call.Args) != 2 {
+				return
+			}
+			fa, ok := call.Call.Args[0].(*ssa.FieldAddr)
+			if !ok {
+				return
+			}
+			key, _, _, base := ir.FullField(fa)
+			if key == "" || ir.BaseAlloc(base) {
+				return
+			}
+			d, ok := ir.ConstInt(call.Call.Args[1])
+			if !ok || d == 0 {
+				return
+			}
+			ups = append(ups, upd{fn, call, key, d, foundFlagOf(fn, b)})
+		})
+	}
+	derived := map[string]string{} // counter -> map it counts
+	for _, u := range ups {
+		if u.delta > 0 && u.guardOf != "" {
+			derived[u.counter] = u.guardOf
+		}
+	}
+	n := 0
+	for _, u := range ups {
+		m, isDerived := derived[u.counter]
+		if !isDerived || u.delta > 0 {
+			continue
+		}
+		n++
+		c.R.Check(u.guardOf == m, "R-count-paired", sprintf("decrement of %s in %s", u.counter, fname(u.fn)), c.Pos(u.call.Pos()),
+			"made only when the key is present in "+m,
+			sprintf("%s decrements %s — which is incremented only for keys that are new in %s — without testing that the key it removes is there: removing a name that was never registered drives the counter below the number of entries, and the code that trusts it (a fast path that returns when it reads zero) no longer sees handlers that are still registered", fname(u.fn), u.counter, m))
+	}
+	if n == 0 {
+		c.R.Hold("R-count-paired", "no counter is kept next to a registry map", "", sprintf("%d atomic adds examined; none counts the keys of a map", len(ups)))
+	}
+}
